@@ -345,9 +345,15 @@ class Adapter(object):
         tid = i + 1
         t = UserTask(self._usergen(tid, prog))
         t.vid = tid
+        if tid in args.get("lo", ()):
+          t.priority = 0.5      # below 1: Scheduler.cycle may send it to the back of the deque
         self.tasks[tid] = t
         t.start(self.sched, fast=True)
     elif a == "Cycle":
+      # the scheduler's random draws are the environment's input: k times "more than the task's priority"
+      # (the head goes to the back), then "less" (the task at the head is resumed)
+      draws = [1.0] * args.get("k", 0)
+      self.sched._random = lambda: draws.pop() if draws else 0.0
       self.sched.cycle()
     elif a == "HubSelect":
       self.hub._select(self.hub._tasks, {})
